@@ -640,7 +640,7 @@ func (x *c33Exec) decode(data []byte, lim int64, o *vu.Out) (res string, got []c
 		}
 		// Oracle: memory allocated while decoding is bounded by the bytes actually received.
 		if nbytes > 1<<20+64*uint64(len(data)) {
-			o.Fail("alloc-exceeds-received", fmt.Sprintf(
+			o.Fail("", fmt.Sprintf(
 				"qpackDecoder.decode allocated %d bytes for a %d-byte stream (frame limit %d): a declared literal length is trusted before the bytes arrive; data=%x",
 				nbytes, len(data), lim, data))
 		}
@@ -802,7 +802,7 @@ func c33RunChild(op string, o *vu.Out) string {
 	}
 	if err != nil && (strings.Contains(out, "out of memory") || strings.Contains(out, "cannot allocate memory")) {
 		o.Stat("dec:child-crash")
-		o.Fail("alloc-exceeds-received", "process died with a fatal out-of-memory error (not recoverable) decoding "+op)
+		o.Fail("", "process died with a fatal out-of-memory error (not recoverable) decoding "+op)
 		return "crash"
 	}
 	return "child-failed"
